@@ -225,7 +225,8 @@ type c20St struct {
 	env    map[types.Object]c20V
 	facts  map[string]bool
 	events []c20Event
-	notes  []string // conditions that could not be tied to an input (both branches explored)
+	notes  []string                // conditions that could not be tied to an input (both branches explored)
+	heap   map[int]map[string]c20V // stores into struct objects of the package (see c20_sx_heap.go)
 	ctl    int
 	ret    []c20V
 	retAt  *ast.ReturnStmt
@@ -246,6 +247,12 @@ func (s *c20St) clone() *c20St {
 		c.facts[k] = v
 	}
 	c.events = append([]c20Event(nil), s.events...)
+	if len(s.heap) > 0 {
+		c.heap = make(map[int]map[string]c20V, len(s.heap))
+		for k, v := range s.heap {
+			c.heap[k] = v // inner maps are replaced, never changed, on a store
+		}
+	}
 	c.notes = append([]string(nil), s.notes...)
 	c.ret = append([]c20V(nil), s.ret...)
 	return c
